@@ -94,9 +94,12 @@ fn pk(id: u64) -> Pubkey {
     Pubkey::new_from_array(b)
 }
 
-fn fresh_market(long: u64, short: u64) -> Result<Box<Market>, String> {
+fn fresh_market(long: u64, short: u64) -> Result<Box<Market>, String> { shaped_market(1_000_003, long, short) }
+
+/// a market of a given SHAPE: index / long / short token ids may coincide in any pattern
+fn shaped_market(index: u64, long: u64, short: u64) -> Result<Box<Market>, String> {
     let mut m = Box::<Market>::default();
-    m.init(255, pk(1_000_001), "SOL/USD", pk(1_000_002), pk(1_000_003), pk(long), pk(short), true)
+    m.init(255, pk(1_000_001), "SOL/USD", pk(1_000_002), pk(index), pk(long), pk(short), true)
         .map_err(|e| format!("init-error {e}"))?;
     Ok(m)
 }
@@ -144,6 +147,23 @@ fn exec_inner(t: &[&str]) -> Option<String> {
             let kind = KINDS.iter().find(|(n, _)| n == kind)?.1;
             match pool_raw(&m, kind) { Some((p, a, b)) => format!("ok {} {a} {b}", p as u8), None => "nopool".into() }
         }
+        // the same three questions on a market of an explicit shape (index, long, short token ids)
+        ["c17", "skey", i, l, s, key] => {
+            let m = match shaped_market(i.parse().ok()?, l.parse().ok()?, s.parse().ok()?) { Ok(m) => m, Err(e) => return Some(e) };
+            match key.parse::<MarketConfigKey>() {
+                Err(_) => "nokey".into(),
+                Ok(_) => match m.get_config(key) { Ok(v) => format!("ok {v}"), Err(_) => "unimplemented".into() },
+            }
+        }
+        ["c17", "sflag", i, l, s, flag] => {
+            let m = match shaped_market(i.parse().ok()?, l.parse().ok()?, s.parse().ok()?) { Ok(m) => m, Err(e) => return Some(e) };
+            match m.get_config_flag(flag) { Ok(b) => format!("ok {}", b as u8), Err(_) => "noflag".into() }
+        }
+        ["c17", "spool", i, l, s, kind] => {
+            let m = match shaped_market(i.parse().ok()?, l.parse().ok()?, s.parse().ok()?) { Ok(m) => m, Err(e) => return Some(e) };
+            let kind = KINDS.iter().find(|(n, _)| n == kind)?.1;
+            match pool_raw(&m, kind) { Some((p, a, b)) => format!("ok {} {a} {b}", p as u8), None => "nopool".into() }
+        }
         ["c17", "const", name] => match lookup(name) {
             Some(Val::N(n)) => format!("ok {n}"),
             Some(Val::B(b)) => format!("ok {}", b as u8),
@@ -164,7 +184,12 @@ fn exec(req: &str) -> String {
 /// the property, checked on the implementation's answer; None = no oracle for this op
 fn oracle(req: &str, resp: &str) -> Option<Result<(), String>> {
     let t: Vec<&str> = req.split(' ').collect();
+    let shape = |i: &str, l: &str, s: &str| format!("market with index token {i}, long token {l}, short token {s}{}", if l == s { " (single-token)" } else { "" });
     match t.as_slice() {
+        // the defaults do not depend on the shape of the market: same expectation as the plain ops
+        ["c17", "skey", i, l, s, key] => oracle(&format!("c17 key {key}"), resp).map(|r| r.map_err(|e| format!("{}: {e}", shape(i, l, s)))),
+        ["c17", "sflag", i, l, s, flag] => oracle(&format!("c17 flag {flag}"), resp).map(|r| r.map_err(|e| format!("{}: {e}", shape(i, l, s)))),
+        ["c17", "spool", i, l, s, kind] => oracle(&format!("c17 pool {l} {s} {kind}"), resp).map(|r| r.map_err(|e| format!("{}: {e}", shape(i, l, s)))),
         ["c17", "key", key] => {
             if key.parse::<MarketConfigKey>().is_err() { return None; }
             let cname = documented_const_of_key(key);
@@ -215,6 +240,14 @@ fn main() {
             let s = if i % 2 == 0 { l } else { let mut s = r.range(1, 1 << 20); if s == l { s += 1; } s };
             for (n, _) in KINDS { v.push(format!("c17 pool {l} {s} {n}")); }
         }
+        // every key, flag and pool kind on every SHAPE of market: single-token (long == short) with the index token
+        // equal to / different from it; two-token with the index token equal to the long / the short / neither
+        let (a, b, c) = (r.range(1, 1 << 20), (1 << 20) + r.range(1, 1 << 20), (1 << 21) + r.range(1, 1 << 20));
+        for (i, l, s) in [(c, a, a), (a, a, a), (a, a, b), (b, a, b), (c, a, b)] {
+            for key in MarketConfigKey::iter() { v.push(format!("c17 skey {i} {l} {s} {key}")); }
+            for flag in MarketConfigFlag::iter() { v.push(format!("c17 sflag {i} {l} {s} {flag}")); }
+            for (n, _) in KINDS { v.push(format!("c17 spool {i} {l} {s} {n}")); }
+        }
         v
     };
     for req in reqs {
@@ -228,6 +261,7 @@ fn main() {
             None => out.stat("oracle.none"),
         }
         let nt = resp.starts_with("ok ") && resp != "ok 0" && resp != "ok 0 0 0";
+        if op.starts_with('s') { out.stat(&format!("shape.{}", { let t: Vec<&str> = req.split(' ').collect(); match (t[2] == t[3], t[2] == t[4], t[3] == t[4]) { (true, _, true) => "all_equal", (false, _, true) => "single_token", (true, _, false) => "index_is_long", (_, true, false) => "index_is_short", _ => "all_differ" } })); }
         out.case_nt(&req, &resp, nt);
     }
     out.finish();
